@@ -185,6 +185,72 @@ theorem kinv_thread {s : KSys} (inv : KInv s) {i : Nat} {t : KThread} (ht : s.th
     apply same
     exact hok
 
+/-- one step of a caller in the `recheckLocked` variant (memory maps and current snapshot are
+looked at again under the write lock) keeps the invariant -/
+theorem kinv_thread_locked {s : KSys} (inv : KInv s) {i : Nat} {t : KThread} (ht : s.threads[i]? = some t) :
+    KInv { s with store := (kstep .recheckLocked s.store s.ctr t).1, ctr := (kstep .recheckLocked s.store s.ctr t).2.1,
+                  threads := s.threads.set i (kstep .recheckLocked s.store s.ctr t).2.2 } := by
+  have htm : t ∈ s.threads := List.mem_of_getElem? ht
+  have hok := inv.thr t htm
+  have same : ∀ t' : KThread, t'.Ok s.store →
+      KInv { s with store := s.store, ctr := s.ctr, threads := s.threads.set i t' } := by
+    intro t' h'
+    refine ⟨inv.uniq, inv.inj, inv.bound, inv.snapSub, inv.diskSub, inv.comm, ?_, inv.mutE, inv.immE⟩
+    intro x hx
+    rcases mem_set_cases hx with hx | rfl
+    · exact inv.thr x hx
+    · exact h'
+  unfold kstep
+  cases hpc : t.pc with
+  | start =>
+    simp only []
+    cases hl : s.store.lookupMem t.bucket t.name with
+    | some j => simp only []; apply same; simp [KThread.Ok]; exact lookupMem_some hl
+    | none => simp only []; apply same; simp [KThread.Ok]
+  | afterMem q =>
+    simp only []
+    have hq : q ≤ s.store.flushSeq := by simpa [KThread.Ok, hpc] using hok
+    cases hl : s.store.lookupPersisted t.bucket t.name with
+    | some j =>
+      simp only []; apply same; simp [KThread.Ok]
+      exact Or.inr (Or.inr (inv.snapSub _ _ _ hl))
+    | none =>
+      simp only []; apply same; simp [KThread.Ok]
+      exact ⟨hq, fun _ => hl⟩
+  | afterDisk q =>
+    simp only []
+    cases hl : s.store.lookupMem t.bucket t.name with
+    | some j => simp only []; apply same; simp [KThread.Ok]; exact lookupMem_some hl
+    | none =>
+      simp only []
+      cases hp : s.store.lookupPersisted t.bucket t.name with
+      | some j =>
+        simp only []; apply same; simp [KThread.Ok]
+        exact Or.inr (Or.inr (inv.snapSub _ _ _ hp))
+      | none =>
+        simp only []
+        obtain ⟨hm, him⟩ := lookupMem_none hl
+        have hsnap : s.store.snap t.bucket t.name = none := hp
+        have hfree : ∀ j, ¬ s.store.Owns t.bucket t.name j := by
+          intro j hj
+          rcases hj with hj | hj | hj
+          · rw [hm] at hj; cases hj
+          · rw [him] at hj; cases hj
+          · rcases inv.diskSub _ _ _ hj with h | h
+            · rw [hsnap] at h; cases h
+            · rw [him] at h; cases h
+        apply kinv_create inv hfree
+        intro x hx
+        rcases mem_set_cases hx with hx | rfl
+        · exact ok_insert (inv.thr x hx) hm
+        · simp [KThread.Ok]; left
+          show (s.store.mutable.set t.bucket t.name s.ctr) t.bucket t.name = some s.ctr
+          simp [Dict.set]
+  | done j =>
+    simp only []
+    apply same
+    exact hok
+
 theorem immDict_prepare_none {st : KvStore} (h : st.immutable = none) :
     st.prepareFlush.immDict = st.mutable ∧ st.prepareFlush.mutable = Dict.empty := by
   simp [KvStore.prepareFlush, h, KvStore.immDict]
@@ -461,6 +527,14 @@ theorem kinv_step {s s' : KSys} (inv : KInv s) (st : KStep .recheckFull s s') : 
   | commit h1 h2 => exact kinv_commit inv h2
   | finish h => exact kinv_finish inv h
 
+theorem kinv_step_locked {s s' : KSys} (inv : KInv s) (st : KStep .recheckLocked s s') : KInv s' := by
+  cases st with
+  | call b n => exact kinv_call inv b n
+  | thread i t h => exact kinv_thread_locked inv h
+  | prepare se => exact kinv_prepareE inv se
+  | commit h1 h2 => exact kinv_commit inv h2
+  | finish h => exact kinv_finish inv h
+
 theorem kinv_start {s : KSys} (h : KStart s) : KInv s := by
   have him : s.store.immDict = Dict.empty := by simp [KvStore.immDict, h.immNil]
   have ho : ∀ b n i, s.store.Owns b n i → s.store.disk b n = some i := by
@@ -484,6 +558,11 @@ theorem kinv_reach {s0 s : KSys} (h0 : KStart s0) (r : KReach .recheckFull s0 s)
   induction r with
   | init => exact kinv_start h0
   | step _ st ih => exact kinv_step ih st
+
+theorem kinv_reach_locked {s0 s : KSys} (h0 : KStart s0) (r : KReach .recheckLocked s0 s) : KInv s := by
+  induction r with
+  | init => exact kinv_start h0
+  | step _ st ih => exact kinv_step_locked ih st
 
 theorem kinv_stable {s : KSys} (inv : KInv s) : KStable s := by
   intro t1 h1 t2 h2 a b ha hb hbk hnm
